@@ -25,6 +25,7 @@ import PoetryVerif.Proofs.MarkerAlgSoundPr
 import PoetryVerif.Proofs.MarkerAlgSoundInvLists
 import PoetryVerif.Proofs.MarkerAlgSoundFullC
 import PoetryVerif.Proofs.MarkerAlgSoundPrC
+import PoetryVerif.Proofs.MarkerAlgSoundFull4
 import PoetryVerif.Proofs.PyConvPairFinal
 import PoetryVerif.Proofs.PyConvPairCompat
 import PoetryVerif.Proofs.MarkerPrint
@@ -707,6 +708,66 @@ example : mkSingle "platform_release" "~=5.10" false = .ok (prCompatOf 5 [10] (l
   have := mkSingle_prCompat 5 [10]
   rw [compatHigh2, t1] at this
   exact this
+
+/-! ### string variables with all four operators: the exact boundary of `notin-union-notin-any` -/
+
+/-- **The leaf facts on string variables with all four operators**: `name == "v"`, `name != "v"`, `"v" in name`,
+`"v" not in name` (and the atomic multi / union leaves merges build), for canonical string variables, plain values,
+in environments defining the variable.  The only condition: the values of the `not in` leaves are pairwise
+comparable by containment (`C`) — so that no union of two `not in` leaves hits the call site
+`Constraint.union`, `ops in ({"!="}, {"not in"})`.  Every other pair of leaves merges exactly
+(`GC.intersect_4`, `GC.unionWith_4` of C16 with atom tracking; an `in`/`not in` atom in a result is an
+operand's, so the constructor is never asked to re-read one). -/
+theorem leafSpec_four_operators {C : String → Prop}
+    (hC : ∀ u v, C u → C v → Generic.strIn u v = true ∨ Generic.strIn v u = true) :
+    LeafSpec (leafEval E) (Str4Leaf C E) := leafSpec_str4 hC E
+
+/-- **The excluded pairs are exactly the wrong ones** (known finding `notin-union-notin-any`, for every variable and
+every pair of values): when neither value contains the other (`ncClash`, a decidable test), the union of
+`"u" not in name` and `"v" not in name` is reported universal although both are false where the variable's value
+is `u ++ v`; hence the condition of `leafSpec_four_operators` cannot be weakened for `union`. -/
+theorem notin_union_boundary {n u v : String} (hn : n ∈ plainStringVars)
+    (hc : Generic.ncClash ⟨u, .nc, false⟩ ⟨v, .nc, false⟩ = true) :
+    mergeLeaves (.single (revNotIn n u)) (.single (revNotIn n v)) false = .ok (some .any) ∧
+    ∀ E' : Env, E'.get? n = some (u ++ v) →
+      leafEval E' (.single (revNotIn n u)) = false ∧ leafEval E' (.single (revNotIn n v)) = false :=
+  notin_union_clash hn hc
+
+/-- **Intersection and union on the full domain with all four operators on the string variables**: string leaves
+as in `leafSpec_four_operators`, `extra`, the python leaves with the seven operators, `platform_release` leaves over
+release-number bounds — every fuel, every stack, no hypothesis other than the containment-comparability of the
+`not in` values. -/
+theorem intersect_union_sound_full4 {C : String → Prop}
+    (hC : ∀ u v, C u → C v → Generic.strIn u v = true ∨ Generic.strIn v u = true)
+    {B : List Version} (hpb : ∀ e ∈ B, PyBound e = true)
+    {ex : List String} (hX : E.extras = some ex) {X Y Z : Nat} (hE : EnvPy E X Y Z) {P : Nat} {Q : List Nat}
+    (hP : E.get? "platform_release" = some (Version.relText (P :: Q))) {a b r : M}
+    (ha : M.Good (FullLeaf4 C B E) a) (hb : M.Good (FullLeaf4 C B E) b) :
+    (mIntersect fuel stk a b = .ok r →
+      M.Good (FullLeaf4 C B E) r ∧ M.validate E r = .ok (holds E a && holds E b)) ∧
+    (mUnion fuel stk a b = .ok r →
+      M.Good (FullLeaf4 C B E) r ∧ M.validate E r = .ok (holds E a || holds E b)) := by
+  have S := leafSpec_full4 hC hpb hX hE hP (pairSound_pyC hE)
+  have hev : ∀ l, FullLeaf4 C B E l → ∃ b, l.validate E = .ok b := fun l hl => fullLeaf4_evaluable hpb hX hE hP hl
+  exact ⟨fun h => by have := intersect_sound_partial S hev ha hb h; exact ⟨this.1, this.2.2⟩,
+    fun h => by have := union_sound_partial S hev ha hb h; exact ⟨this.1, this.2.2⟩⟩
+
+/-- `"a" in sys_platform` and `"ab" not in sys_platform` are leaves of the four-operator fragment (one `not in`
+value: trivially a chain); `"a" not in …` ∪ `"b" not in …` is the excluded class -/
+example : Str4Leaf (fun v => v = "ab") Ex.envAB
+      (.single ⟨"sys_platform", "in", "a", true, .gen (.s (.atom ⟨"a", .in_, false⟩))⟩) ∧
+    Str4Leaf (fun v => v = "ab") Ex.envAB (.single (revNotIn "sys_platform" "ab")) ∧
+    Generic.ncClash ⟨"a", .nc, false⟩ ⟨"b", .nc, false⟩ = true := by
+  have tk : ∀ v : String, v.toList ≠ [] → (v.toList.all fun c =>
+      !isSpace c && c != '|' && c != ',' && c != '"' && c != '\'') = true → PlainTok v := by
+    intro v h1 h2
+    refine ⟨h1, fun c hc => ?_⟩
+    have := List.all_eq_true.1 h2 c hc
+    simpa [tokChar, Bool.and_eq_true, and_assoc] using this
+  refine ⟨Or.inr ⟨"sys_platform", "in", .in_, "a", by decide, by decide, tk _ (by decide) (by decide),
+      ⟨"a", rfl⟩, (by intro h; cases h), rfl⟩,
+    Or.inr ⟨"sys_platform", "not in", .nc, "ab", by decide, by decide, tk _ (by decide) (by decide),
+      ⟨"a", rfl⟩, fun _ => rfl, rfl⟩, by decide⟩
 
 /-- **Inversion preserves truth on every marker of single markers in C06's agreement domain** — no closure
 under merging is needed (inversion never merges), so this covers item classes outside the intersect/union
